@@ -20,7 +20,7 @@ SEMIRINGS = ["Q", "Q", "Float", "Real", "Boolean", "MaxTimes"]
 
 
 def plan(tier, seed):
-    return common.plan_shards(tier, seed, n_quick=400, n_thorough=2500, budget_quick=25, budget_thorough=240)
+    return common.plan_shards(tier, seed, n_quick=400, n_thorough=8000, budget_quick=25, budget_thorough=240)
 
 
 def gates(tier):
